@@ -55,14 +55,70 @@ def bits(m):
     return [b for b in range(m.bit_length()) if (m >> b) & 1]
 
 
-def make_polygon(poly):
+NLAY = 6
+
+
+def lay_arr(a, lay):
+    """The same VALUES in another memory layout (Mangle.tla, remark "values only"):
+    0 plain, 1 read-only, 2 every second element of a longer array, 3 Fortran-ordered / column view,
+    4 byte-swapped (as FITS data is), 5 read-only and byte-swapped."""
+    a = np.asarray(a)
+    if lay == 0 or a.ndim == 0:
+        return a
+    if lay == 1:
+        b = a.copy()
+        b.setflags(write=False)
+        return b
+    if lay == 2:
+        big = np.full((2 * a.shape[0] + 1,) + a.shape[1:], 7, dtype=a.dtype)
+        big[::2][:a.shape[0]] = a
+        return big[::2][:a.shape[0]]
+    if lay == 3:
+        if a.ndim >= 2:
+            return np.asfortranarray(a)
+        big = np.full((a.shape[0], 2), 7, dtype=a.dtype)
+        big[:, 0] = a
+        return big[:, 0]
+    b = a.astype(a.dtype.newbyteorder())
+    if lay == 5:
+        b.setflags(write=False)
+    return b
+
+
+def lay_scalar(v, lay):
+    """A scalar argument: numpy scalar, Python float, 0-d array, byte-swapped 0-d array, read-only 0-d array."""
+    if lay == 0:
+        return np.float64(v)
+    if lay in (1, 2):
+        return float(v)
+    if lay == 3:
+        return np.array(v, dtype=np.float64)
+    b = np.array(v, dtype=np.dtype(np.float64).newbyteorder())
+    if lay == 5:
+        b.setflags(write=False)
+    return b
+
+
+def lay_index(idx, lay):
+    """An index list (array-like): list, read-only int64, strided int64, int32, big-endian int64, tuple."""
+    il = [int(v) for v in idx]
+    if lay == 0:
+        return il
+    if lay == 5:
+        return tuple(il)
+    if lay == 3:
+        return np.array(il, dtype=np.int32)
+    return lay_arr(np.array(il, dtype=np.int64), lay)
+
+
+def make_polygon(poly, lay=0):
     from pydl.pydlutils.mangle import ManglePolygon
     caps = poly['caps']
     if len(caps) == 0 and not poly['use']:
         return ManglePolygon()
     x = np.array([vec(c['x']) for c in caps], dtype=np.float64).reshape((len(caps), 3))
     cm = np.array([fl(c['cm']) for c in caps], dtype=np.float64).reshape((len(caps),))
-    return ManglePolygon(x=x, cm=cm, use_caps=mask_int(poly['use']))
+    return ManglePolygon(x=lay_arr(x, lay), cm=lay_arr(cm, lay), use_caps=mask_int(poly['use']))
 
 
 def fits_rows(polys):
@@ -112,13 +168,40 @@ def write_fits(path, rows):
     fits.HDUList([fits.PrimaryHDU(), fits.BinTableHDU.from_columns(cols)]).writeto(path, overwrite=True)
 
 
-def write_ply(path, ply):
+NSTYLE = 4
+
+
+def spell(v, style, is_cm):
+    """One number of a cap line.  style 0 is what Mangle itself writes (%19.16f for the direction cosines,
+    %.16g for cm, so |cm| < 1e-4 comes out in exponent notation); the others are further legal spellings of
+    the same value: 1 shortest round-trip %.17g; 2 explicit + sign and upper-case E; 3 no leading zero (".5"),
+    bare trailing point ("1.", "1.e-06")."""
+    if style == 0:
+        return ('%.16g' if is_cm else '%19.16f') % v
+    s = '%.17g' % v
+    if style == 2:
+        return ('%+.17g' % v).upper()
+    if style == 3:
+        mant, e, ex = s.partition('e')
+        if '.' not in mant:
+            mant += '.'
+        if mant.startswith('0.') and len(mant) > 2:
+            mant = mant[1:]
+        elif mant.startswith('-0.') and len(mant) > 3:
+            mant = '-' + mant[2:]
+        return mant + e + ex
+    return s
+
+
+def write_ply(path, ply, style=0):
+    sep = {0: ' ', 1: ' ', 2: '   ', 3: ' \t'}[style]
     with open(path, 'w') as fh:
         fh.write('%d polygons\nsnapped\nbalkanized\n' % len(ply))
         for p in ply:
             fh.write('polygon %d ( %d caps, 1 weight, 0 pixel, 1.0 str):\n' % (p['id'], p['ncaps']))
             for ln in p['lines']:
-                fh.write(' ' + ' '.join('%.17g' % fl(q) for q in ln) + '\n')
+                fh.write(' ' + sep.join(spell(fl(q), style, j == 3) for j, q in enumerate(ln)) +
+                         ('  ' if style == 3 else '') + '\n')
 
 
 def write_balkans(dirname, b):
@@ -144,21 +227,21 @@ FORMS_FULL = ('memory', 'fits_raw', 'fits_convert', 'ply', 'balkans')
 FORMS_MASKED = ('memory', 'fits_raw', 'fits_convert')
 
 
-def load_form(ctx, form, polys, fits_r=None, ply=None, balkans=None):
+def load_form(ctx, form, polys, fits_r=None, ply=None, balkans=None, lay=0, style=0):
     """The polygon list in one storage form, read back by the reader of that form."""
     from pydl.pydlutils import mangle as mng
     _COUNTER[0] += 1
     d = os.path.join(ctx.scratch, 'forms', '%06d' % _COUNTER[0])      # never overwrite a file a reader may still map
     os.makedirs(d, exist_ok=True)
     if form == 'memory':
-        return mng.PolygonList([make_polygon(p) for p in polys])
+        return mng.PolygonList([make_polygon(p, lay) for p in polys])
     if form in ('fits_raw', 'fits_convert'):
         path = os.path.join(d, 'polygons.fits')
         write_fits(path, fits_r if fits_r is not None else fits_rows(polys))
         return mng.read_fits_polygons(path, convert=(form == 'fits_convert'))
     if form == 'ply':
         path = os.path.join(d, 'polygons.ply')
-        write_ply(path, ply if ply is not None else ply_form(polys))
+        write_ply(path, ply if ply is not None else ply_form(polys), style)
         return mng.read_mangle_polygons(path)
     if form == 'balkans':
         from pydl.photoop.window import window_read
@@ -202,11 +285,11 @@ def obs_window(fn, npts):
     return {'exc': None, 'idx': [int(v) for v in idx], 'inw': [bool(v) for v in inw]}
 
 
-def obs_usecaps(poly, idx, add, allow_doubles, allow_neg, as_array):
+def obs_usecaps(poly, idx, add, allow_doubles, allow_neg, lay):
     from pydl.pydlutils.mangle import set_use_caps
-    P = make_polygon(poly)
+    P = make_polygon(poly, lay)
     P.use_caps = mask_int(poly['use'])
-    il = np.array(list(idx), dtype=np.int64) if as_array else [int(v) for v in idx]
+    il = lay_index(idx, lay)
     try:
         r = set_use_caps(P, il, add=add, allow_doubles=allow_doubles, allow_neg_doubles=allow_neg)
     except Exception as ex:
@@ -225,42 +308,56 @@ def jsonable(v):
     return v
 
 
-def points(pts, coords):
+def points(pts, coords, lay=0):
     xyz = cart(pts)
-    return xyz if coords == 'xyz' else radec(xyz)
+    return lay_arr(xyz if coords == 'xyz' else radec(xyz), lay)
 
 
-def run_cap(c, pts, coords):
-    from pydl.pydlutils.mangle import is_in_cap
-    x = np.array(vec(c['cap']['x']), dtype=np.float64)
-    cm = np.float64(fl(c['cap']['cm']))
-    return obs_bool(lambda: is_in_cap(x, cm, points(pts, coords)), len(pts))
+def run_cap(c, pts, coords, lay=0):
+    from pydl.pydlutils.mangle import cap_distance, is_in_cap
+    x = lay_arr(np.array(vec(c['cap']['x']), dtype=np.float64), lay)
+    cm = lay_scalar(fl(c['cap']['cm']), lay)
+    p = points(pts, coords, lay)
+    obs = obs_bool(lambda: is_in_cap(x, cm, p), len(pts))
+    if obs['exc'] is None:
+        # observe_at: cap_distance's sign is the membership (negative = outside)
+        try:
+            d = np.asarray(cap_distance(x, cm, p))
+            if d.shape != (len(pts),) or [bool(v >= 0) for v in d] != obs['val']:
+                obs = {'exc': 'cap_distance sign disagrees with is_in_cap: %r' % (d.tolist(),), 'val': []}
+        except Exception as ex:
+            obs = {'exc': 'cap_distance: ' + exc_name(ex), 'val': []}
+    return obs
 
 
-def run_poly(c, pts, coords):
+def run_poly(c, pts, coords, lay=0):
     from pydl.pydlutils.mangle import is_in_polygon
-    P = make_polygon(c['poly'])
+    P = make_polygon(c['poly'], lay)
     n = int(c['n'])
+    p = points(pts, coords, lay)
     if n == 0 and coords == 'xyz':
-        return obs_bool(lambda: is_in_polygon(P, points(pts, coords)), len(pts))     # default argument
-    return obs_bool(lambda: is_in_polygon(P, points(pts, coords), ncaps=n), len(pts))
+        return obs_bool(lambda: is_in_polygon(P, p), len(pts))     # default argument
+    return obs_bool(lambda: is_in_polygon(P, p, ncaps=n), len(pts))
 
 
-def run_window(ctx, c, pts, coords, form, loaded=None):
+def run_window(ctx, c, pts, coords, form, loaded=None, lay=0, how=None):
     """loaded: cache {form: polygons | Exception} so that one state writes / reads each storage form once"""
     from pydl.pydlutils.mangle import is_in_window
     if loaded is None:
         loaded = {}
+    how = how or {'lay': 0, 'style': 0}     # layout of in-memory polygons, spelling of the .ply numbers
     if form not in loaded:
         try:
-            loaded[form] = load_form(ctx, form, c['polys'], c.get('fits'), c.get('ply'), c.get('balkans'))
+            loaded[form] = load_form(ctx, form, c['polys'], c.get('fits'), c.get('ply'), c.get('balkans'),
+                                     how['lay'], how['style'])
         except Exception as ex:
             loaded[form] = ex
     polys = loaded[form]
     if isinstance(polys, Exception):
         return {'exc': 'reader: ' + exc_name(polys), 'idx': [], 'inw': []}
     n = int(c['n'])
-    return obs_window(lambda: is_in_window(polys, points(pts, coords), ncaps=n), len(pts))
+    p = points(pts, coords, lay)
+    return obs_window(lambda: is_in_window(polys, p, ncaps=n), len(pts))
 
 
 def judge_bool(exp, obs):
@@ -338,9 +435,11 @@ class Reporter:
 def replay_state(ctx, rep, c, exp, pts, k):
     fam = c['fam']
     ncalls = 0
+    rot = k + ctx.seed           # layouts / spellings are rotated over the cases by seed
     if fam in ('cap', 'poly'):
         for coords in ('xyz', 'radec'):
-            obs = run_cap(c, pts, coords) if fam == 'cap' else run_poly(c, pts, coords)
+            lay = (rot + ncalls) % NLAY
+            obs = run_cap(c, pts, coords, lay) if fam == 'cap' else run_poly(c, pts, coords, lay)
             ncalls += 1
             bad = judge_bool(exp, obs)
             if bad is None or bad:
@@ -350,8 +449,9 @@ def replay_state(ctx, rep, c, exp, pts, k):
                     obs['exc'] if bad is None else 'wrong at points %s (pool numbers); e.g. point %s expected %s observed %s' % (
                         bad[:6], pts[bad[0] - 1], bad[0] in exp['in'], obs['val'][bad[0] - 1])))
                 rep.fail('%s/%s/%s' % (fam, coords, finding or 'unexplained'),
-                         {'what': what, 'fam': fam, 'c': jsonable(c), 'coords': coords, 'form': '',
-                          'pts': jsonable(pts), 'expected': jsonable(exp), 'observed': obs}, finding)
+                         {'what': what + ' [layout %d]' % lay, 'fam': fam, 'c': jsonable(c), 'coords': coords,
+                          'form': '', 'lay': lay, 'pts': jsonable(pts), 'expected': jsonable(exp), 'observed': obs},
+                         finding)
         ctx.evaluated(ncalls, 'is_in_' + ('cap' if fam == 'cap' else 'polygon'))
         if exp['in'] and exp['out']:
             ctx.nontriv((fam, brief(c)))
@@ -363,11 +463,13 @@ def replay_state(ctx, rep, c, exp, pts, k):
         if key not in _FORM_CACHE:
             if len(_FORM_CACHE) >= 8:
                 _FORM_CACHE.pop(next(iter(_FORM_CACHE)))
-            _FORM_CACHE[key] = {}
+            _FORM_CACHE[key] = {'how': {'style': rot % NSTYLE, 'lay': rot % NLAY}}
         loaded = _FORM_CACHE[key]
+        how = loaded['how']          # spelling of the .ply file / layout of the in-memory polygons of this list
         for form in forms:
             for coords in (('xyz', 'radec') if form in ('memory', 'fits_raw') or k % 2 else ('xyz',)):
-                obs = run_window(ctx, c, pts, coords, form, loaded)
+                lay = (rot + ncalls) % NLAY
+                obs = run_window(ctx, c, pts, coords, form, loaded, lay, how)
                 ncalls += 1
                 bad = judge_window(exp, obs)
                 if bad is None or bad:
@@ -377,13 +479,16 @@ def replay_state(ctx, rep, c, exp, pts, k):
                         obs['exc'] if bad is None else 'wrong at points %s; e.g. point %s admitted %s observed %s' % (
                             bad[:6], pts[bad[0] - 1], sorted(exp['allowed'][bad[0] - 1]), obs['idx'][bad[0] - 1])))
                     rep.fail('window/%s/%s/%s' % (form, coords, finding or 'unexplained'),
-                             {'what': what, 'fam': fam, 'c': jsonable(c), 'coords': coords, 'form': form,
+                             {'what': what + ' [layout %d, ply style %d]' % (lay, how['style']), 'fam': fam,
+                              'c': jsonable(c), 'coords': coords, 'form': form,
+                              'lay': lay, 'how': dict(how),
                               'pts': jsonable(pts), 'expected': jsonable(exp), 'observed': obs}, finding)
         ctx.evaluated(ncalls, 'is_in_window')
         if len({min(a) for a in exp['allowed'] if len(a) == 1}) > 1:
             ctx.nontriv((fam, brief(c)))
     elif fam == 'usecaps':
-        obs = obs_usecaps(c['poly'], c['idx'], c['add'], c['allowDoubles'], c['allowNeg'], as_array=bool(k % 2))
+        lay = rot % NLAY
+        obs = obs_usecaps(c['poly'], c['idx'], c['add'], c['allowDoubles'], c['allowNeg'], lay)
         ncalls = 1
         good = (not obs['err']) and frozenset(obs['ret']) == exp['use'] and obs['attr'] == obs['ret']
         if not good:
@@ -391,8 +496,8 @@ def replay_state(ctx, rep, c, exp, pts, k):
             what = 'set_use_caps %s: expected bits %s observed %s' % (
                 brief(c), sorted(exp['use']), obs['exc'] if obs['err'] else (obs['ret'], obs['attr']))
             rep.fail('usecaps/%s' % (finding or 'unexplained'),
-                     {'what': what, 'fam': fam, 'c': jsonable(c), 'coords': '', 'form': 'array' if k % 2 else 'list',
-                      'pts': [], 'expected': jsonable(exp), 'observed': obs}, finding)
+                     {'what': what + ' [index list layout %d]' % lay, 'fam': fam, 'c': jsonable(c), 'coords': '',
+                      'form': '', 'lay': lay, 'pts': [], 'expected': jsonable(exp), 'observed': obs}, finding)
         ctx.evaluated(1, 'set_use_caps')
         if len(c['idx']) > 0:
             ctx.nontriv((fam, brief(c)))
@@ -449,7 +554,8 @@ def neg(v):
     return tuple(-t for t in v)
 
 
-CM_SPECIAL = [Fraction(k, 100) for k in (1, 50, 100, 150, 199, 200, 0, -1, -50, -100, -150, -199, -200)]
+CM_SPECIAL = [Fraction(k, 100) for k in (1, 50, 100, 150, 199, 200, 0, -1, -50, -100, -150, -199, -200)] + \
+    [Fraction(1, 20000), Fraction(-1, 20000), Fraction(1, 1000000), Fraction(-1, 1000000)]   # exponent notation in .ply
 
 
 def _tup(j):
@@ -469,34 +575,35 @@ def execute_record(ctx, rec, m):
     if kind == 'window':
         tp = [_tup(p) for p in rec['polys']]
         c = {'fam': 'window', 'polys': tp, 'n': rec['n'], 'balkans': balkan_form(tp, m['order'])}
-        obs = run_window(ctx, c, _tpts(rec['pts']), m['coords'], m['form'])
+        obs = run_window(ctx, c, _tpts(rec['pts']), m['coords'], m['form'], None, m['lay'],
+                         {'lay': m['lay2'], 'style': m['style']})
         rec['obs'], rec['obsin'] = obs['idx'], obs['inw']
     elif kind == 'poly':
-        obs = run_poly({'poly': _tup(rec['poly']), 'n': rec['n']}, _tpts(rec['pts']), m['coords'])
+        obs = run_poly({'poly': _tup(rec['poly']), 'n': rec['n']}, _tpts(rec['pts']), m['coords'], m['lay'])
         rec['obs'] = obs['val']
     elif kind == 'cap':
         obs = run_cap({'cap': {'x': [tuple(t) for t in rec['cap']['x']], 'cm': tuple(rec['cap']['cm'])}},
-                      _tpts(rec['pts']), m['coords'])
+                      _tpts(rec['pts']), m['coords'], m['lay'])
         rec['obs'] = obs['val']
     elif kind == 'usecaps':
         obs = obs_usecaps(_tup(rec['poly']), rec['idx'], rec['add'], rec['allowDoubles'], rec['allowNeg'],
-                          as_array=(m['form'] == 'array'))
+                          m['lay'])
         rec['err'], rec['ret'], rec['attr'] = obs['err'], obs['ret'], obs['attr']
     elif kind == 'self':
         # an arbitrary (irrational) point handed to the code as the centre of the cap / as the centre's antipode
-        p = np.array([m['point']], dtype=np.float64)
+        p = lay_arr(np.array([m['point']], dtype=np.float64), m['lay'])
         if m['coords'] == 'radec':
             ra, dec = math.radians(m['point'][0]), math.radians(m['point'][1])
             x = np.array([math.cos(ra) * math.cos(dec), math.sin(ra) * math.cos(dec), math.sin(dec)])
         else:
-            x = p[0].copy()
+            x = np.array(m['point'], dtype=np.float64)
         if rec['rel'] == 'antipode':
             x = -x
         cm = fl(rec['cm'])
         if m['via'] == 'is_in_cap':
-            obs = obs_bool(lambda: mng.is_in_cap(x, np.float64(cm), p), 1)
+            obs = obs_bool(lambda: mng.is_in_cap(lay_arr(x, m['lay']), lay_scalar(cm, m['lay']), p), 1)
         else:
-            P = mng.ManglePolygon(x=x.reshape((1, 3)), cm=np.array([cm]))
+            P = mng.ManglePolygon(x=lay_arr(x.reshape((1, 3)), m['lay']), cm=lay_arr(np.array([cm]), m['lay']))
             obs = obs_bool(lambda: mng.is_in_polygon(P, p), 1)
         rec['obs'] = obs['val'][0] if obs['val'] else False
     else:
@@ -567,7 +674,7 @@ def record_calls(ctx, rng, nwin, npoly, ncap, nuse, nself):
             idx = list(range(nc))
         recs.append({'kind': 'usecaps', 'poly': poly, 'idx': idx, 'add': rng.random() < 0.4,
                      'allowDoubles': rng.random() < 0.25, 'allowNeg': rng.random() < 0.4})
-        meta.append({'form': 'array' if k % 2 else 'list', 'coords': ''})
+        meta.append({'form': '', 'coords': ''})
     for k in range(nself):
         coords = rng.choice(['xyz', 'radec'])
         rel = 'centre' if rng.random() < 0.6 else 'antipode'
@@ -585,6 +692,7 @@ def record_calls(ctx, rng, nwin, npoly, ncap, nuse, nself):
         meta.append({'form': '', 'coords': coords, 'point': point,
                      'via': 'is_in_cap' if rng.random() < 0.5 else 'is_in_polygon'})
     for rec, m in zip(recs, meta):
+        m.update({'lay': rng.randrange(NLAY), 'lay2': rng.randrange(NLAY), 'style': rng.randrange(NSTYLE)})
         execute_record(ctx, rec, m)
     return recs, meta
 
@@ -689,16 +797,17 @@ def replay(ctx, case):
         return
     c, exp, pts = case['c'], case['expected'], case['pts']
     if fam in ('cap', 'poly'):
-        obs = run_cap(c, pts, case['coords']) if fam == 'cap' else run_poly(c, pts, case['coords'])
+        lay = case.get('lay', 0)
+        obs = run_cap(c, pts, case['coords'], lay) if fam == 'cap' else run_poly(c, pts, case['coords'], lay)
         bad = judge_bool({'in': set(exp['in']), 'out': set(exp['out'])}, obs)
         fail = bad is None or bool(bad)
     elif fam == 'window':
-        obs = run_window(ctx, c, pts, case['coords'], case['form'])
+        obs = run_window(ctx, c, pts, case['coords'], case['form'], None, case.get('lay', 0), case.get('how'))
         bad = judge_window({'allowed': [set(a) for a in exp['allowed']]}, obs)
         fail = bad is None or bool(bad)
     else:
         obs = obs_usecaps({'caps': c['poly']['caps'], 'use': set(c['poly']['use'])}, c['idx'], c['add'],
-                          c['allowDoubles'], c['allowNeg'], as_array=(case['form'] == 'array'))
+                          c['allowDoubles'], c['allowNeg'], case.get('lay', 0))
         bad = None
         fail = obs['err'] or sorted(obs['ret']) != sorted(exp['use']) or obs['attr'] != obs['ret']
     print('replayed:', case['what'], '\nobserved now:', obs, '\nwrong points:', bad)
